@@ -304,18 +304,19 @@ def run(ck):
             val = max(r) if (finite and all(not math.isnan(x) for x in r)) else float("inf")
             e = report.setdefault(key, {})
             e[fam] = max(e.get(fam, 0.0), val)
-            if val >= THRESHOLD and (key not in worst or val > worst[key][0]):
-                worst[key] = (val, cid, r, finite)
-        for key, (val, cid, r, finite) in sorted(worst.items()):
+            k2 = (key, fam)
+            if val >= THRESHOLD and (k2 not in worst or val > worst[k2][0]):
+                worst[k2] = (val, cid, r, finite)
+        for (key, fam), (val, cid, r, finite) in sorted(worst.items()):
             N, m = byid[cid]
             what = ("non finite eigenvalues/eigenvectors" if not finite or val == float("inf")
                     else "residual %.3g >= %.0e" % (val, THRESHOLD))
-            ck.violation("residual:%s:%s" % (key, cid.split("#")[0]),
-                         "%s returns an invalid spectral decomposition (%s) for the finite symmetric tensor (a00 a11 a22 a01 a02 a12) = %s"
-                         % (key, what, " ".join("%.17g" % x for x in m)),
-                         {"solver": key, "family": cid.split("#")[0], "matrix_a00_a11_a22_a01_a02_a12": m, "N": N,
+            ck.violation("residual:%s:%s" % (key, fam),
+                         "%s returns an invalid spectral decomposition (%s) for the finite symmetric tensor (a00 a11 a22 a01 a02 a12) = %s [family %s]"
+                         % (key, what, " ".join("%.17g" % x for x in m), fam),
+                         {"solver": key, "family": fam, "matrix_a00_a11_a22_a01_a02_a12": m, "N": N,
                           "residuals_recon_orth_eigeq_evdiff": r, "finite": finite,
-                          "replay": "echo 'x %d %s' | work/C03/c03resid" % (N, " ".join("%.17g" % x for x in m))}, True)
+                          "replay": "echo 'x %d %s' | work/C03/c03resid   (harness/C03/residual.cxx built against the tree)" % (N, " ".join("%.17g" % x for x in m))}, True)
     if ck.tier == "thorough" and res.ok:
         for m, log in ck.leanchecker(PROPS):
             ck.violation("leanchecker:" + m, "leanchecker rejects " + m, {"log": log}, False)
